@@ -21,7 +21,13 @@ func h01Values(which int) []Value {
 		panic("h01Values: no record")
 	}
 	res := r.Result().(*Result)
-	return append([]Value(nil), res.Values...)
+	vals := append([]Value(nil), res.Values...)
+	// values built through the API (not obtained from the parser under test): full-precision
+	// floats whose shortest decimal has 16-17 digits, plain and rescaled
+	vals = append(vals, Value{Value: 15.832827774512765, Unit: "w"})
+	ov := []float64{94.17601719804103, 940497473450.9459, 0.30000000000000004}[which%3]
+	vals = append(vals, Value{Value: ov * 1e-9, Unit: "sec/w", OrigValue: ov, OrigUnit: "ns/w"})
+	return vals
 }
 
 func h01SameFloat(a, b float64) bool { return a == b || (a != a && b != b) }
